@@ -286,6 +286,8 @@ Definition run_slash (c impl : sexp) : sexp :=
         A (L cls);
         Lst [ verdict "in_scope" in_scope; verdict "both_reach_dispatch_through_the_mux" both_dispatch;
               verdict "options_filter_asked" opt;
+              verdict "hypotheses_of_C14_options_list"
+                (opt && table_plain O t && negb (match rev (rq_path req) with ch :: _ => Ascii.eqb ch slash | [] => true end));
               verdict "kf:K-C14-1" (opt && has_emptiable_token O t);
               verdict "hypotheses_of_C14_jsr"
                 (match t_router t with
